@@ -2,7 +2,7 @@
 
 UNITS = {
     'mutv': dict(template='contracts/mutv.rs',
-                 what='U8 in Verus: StringLengthMutator and CharacterMutator (String and byte-string methods), any length'),
+                 what='U8 in Verus: StringLengthMutator, CharacterMutator (String and byte-string methods, any length) and TypeConfusionMutator (opcode_to_type, choose_wrong_type, generate_opcode_for_type, post_process)'),
     'core': dict(template='contracts/core.rs',
                  what='U1 stack/util helpers, U2 can_emit guards (one obligation per arm), '
                       'U3 process_stack_ops effects (one obligation per arm) against the reference machine'),
@@ -140,7 +140,7 @@ PROPS = {
         claim='Complete proofs (all i32/i64/f64/usize values, all entropy states of both sources, no panic/overflow) of the transformation clause of '
               'bit-flip, boundary, off-by-one, memo-index; bounded proofs for character (bytes) and type confusion.',
         note='String-valued transformations (StringLength both kinds, Character both kinds) are proved in Verus for every length, modulo assumed std String specs. '
-             'Type confusion: Kani, bounded. Trusted: Kani/CBMC, ChaCha8 stub.',
+             'Type confusion: proved in Verus (unit mutv: every output/emission length, all clauses incl. frame and one-complete-opcode) and cross-checked by a bounded Kani harness (thorough tier). Trusted: Kani/CBMC, ChaCha8 stub.',
         assumptions=['String std operations (chars/take/collect/push/push_str/clone) are assumed specs (listed in trusted_base)']),
     'C18': dict(
         title='Entropy adapters stay in range and never fail, even on exhausted input',
@@ -211,7 +211,7 @@ PROPS.update({
         note=_NOTE + ' Table content is assumed in Verus and proved exactly equal to the CPython vocabulary by the Kani harness u7_tables_exact; the protocol-0 7-bit-ASCII clause for payload bytes is not covered yet.',
         assumptions=_CORE_ASSUME),
     'C06': dict(
-        title='FRAME unique, leads the body, spans exactly the rest', verus=['core'], kani_quick=U0, kani_thorough=U8_THOROUGH, level='proof',
+        title='FRAME unique, leads the body, spans exactly the rest', verus=['core', 'mutv'], kani_quick=U0, kani_thorough=U8_THOROUGH, level='proof',
         technique='Verus contract on generate_internal (FRAME back-patch arithmetic and position), can_emit(Frame)=false, unreachable Frame emitter arm; Kani frame clause of the type-confusion rewrite',
         claim='Safe mode: proof that FRAME occurs only for P >= 4, at byte offset 2, with length == total length - 11, and that no body/tail opcode is FRAME. '
               'Unsafe mode: the rewrite never touches bytes before the current emission (Kani, bounded) and the length is patched after all rewrites.',
@@ -241,7 +241,7 @@ PROPS.update({
         note=_NOTE + ' Not covered: RefCell borrow-flag panics, allocation failure, native stack depth of recursive Drop, string mutators, text emitters (format!).',
         assumptions=_CORE_ASSUME + ['RefCell borrow flags, allocation failure and native stack overflow of recursive drop are not modelled']),
     'C10': dict(
-        title='EXT and buffer opcodes only when enabled', verus=['core'], kani_thorough=U8_THOROUGH, level='proof',
+        title='EXT and buffer opcodes only when enabled', verus=['core', 'mutv'], kani_thorough=U8_THOROUGH, level='proof',
         technique='Verus contracts: can_emit flag clauses, emitted opcode in the chosen family (flags_ok), collapse-phase opcode set, generate_internal trace clause; Kani: type-confusion replacement is never EXT/buffer',
         claim='Proof that no opcode recorded in the trace is EXT*/NEXT_BUFFER/READONLY_BUFFER unless the corresponding flag is set.',
         note=_NOTE, assumptions=_CORE_ASSUME),
